@@ -65,7 +65,7 @@ def lean_audit(prop):
     src = open(path).read()
     names = re.findall(r"^theorem\s+([A-Za-z0-9_.']+)", src, flags=re.M)
     ns = re.findall(r"^namespace\s+([A-Za-z0-9_.]+)", src, flags=re.M)
-    prefix = (ns[0] + ".") if ns else ""
+    prefix = (".".join(ns) + ".") if ns else ""
     audit = os.path.join(BUILD, "audit_%s.lean" % prop)
     os.makedirs(BUILD, exist_ok=True)
     with open(audit, "w") as f:
